@@ -55,6 +55,7 @@ var tamperClasses = []string{
 	"sig-type-mismatch",
 	"key-slot-type-confusion",
 	"reflect-auth",
+	"reflect-auth-fresh-eph",
 	"eph-malformed",
 	"sig-empty",
 	"garbage-auth-payload",
@@ -407,8 +408,9 @@ func (ac *authCase) script(rm *remote, class string, r *rng.R, out *sessionOut) 
 	case "garbage-auth-payload":
 		out.presentedKey = nil
 		payload = r.Bytes(r.Range(1, 200))
-	case "reflect-auth":
-		// bounce the honest node's own auth frame back to it
+	case "reflect-auth", "reflect-auth-fresh-eph":
+		// bounce the honest node's own auth frame back to it (after echoing its ephemeral key, or after a
+		// fresh ephemeral key of our own for which we hold no secret)
 		raw, chunk, err := rm.readFrame()
 		if err != nil {
 			fail("read honest auth frame", err)
@@ -610,6 +612,7 @@ var classDoc = map[string]string{
 	"sig-type-mismatch":       "signature of the other key type",
 	"key-slot-type-confusion": "a Signature concrete type in the PubKey slot",
 	"reflect-auth":            "the honest node's own ephemeral key and auth frame bounced back to it",
+	"reflect-auth-fresh-eph":  "a fresh random ephemeral key, then the honest node's own auth frame bounced back to it",
 	"eph-malformed":           "malformed ephemeral key message",
 	"sig-empty":               "zero / empty signature",
 	"garbage-auth-payload":    "random bytes as auth message",
